@@ -237,7 +237,7 @@ fn p_c09(k: usize, srcs: &[String]) -> String {
             let Ok(s) = JsonShape::from_sources(&hh) else { return "violated: from_sources failed on a repetition".into() };
             if let Some(p) = &prev {
                 if *p != s {
-                    return format!("violated: shape still changing at repetition {} of {}: {} -> {}", rep + 1, hex(d.as_bytes()), sexp(p), sexp(&s));
+                    return format!("violated: shape still changing at repetition {}: {} -> {}", rep + 1, sexp(p), sexp(&s));
                 }
             }
             prev = Some(s);
